@@ -101,8 +101,17 @@ Fixpoint Unwind (fs : list frame) (acc : option rtree) (its : list item) (T : rt
 Definition item_ranked (it : item) : Prop :=
   match it with
   | IPrefix d _ | ISuffix d _ | IBinary d _ => exists p, ref_rank d = Some p /\ (p < INF)%N
+  | IValue d _ => norm_atom d = d
   | _ => True
   end.
+
+Lemma norm_atom_store d fs : norm_atom d = d -> norm_atom (atom_store d fs) = d.
+Proof.
+  intros H. unfold atom_store. destruct (definition_eqb d D_Identifier) eqn:E; [|exact H].
+  assert (d = D_Identifier).
+  { unfold definition_eqb in E. apply N.eqb_eq in E. destruct d; try reflexivity; vm_compute in E; discriminate E. }
+  subst d. destruct fs as [|f r]; [reflexivity|]. destruct (definition_eqb (frame_def f) D_Access); reflexivity.
+Qed.
 
 Lemma inside_INF d p : ref_rank d = Some p -> (p < INF)%N -> inside d INF = true.
 Proof. intros H L. unfold inside. rewrite H. apply N.ltb_lt in L. rewrite L. reflexivity. Qed.
@@ -228,6 +237,7 @@ Proof.
     destruct it as [d k|d k|d k|d k|k|k]; destruct acc as [t|]; cbn [spine_step] in Es; try discriminate.
     + (* value *)
       injection Es as <- <-. specialize (IH HF H HG). cbn [option_map erase] in *.
+      cbn [item_ranked] in Hit. rewrite (norm_atom_store d fs Hit) in IH.
       eapply Unwind_head; [|exact IH]. intros q t0 r0 _ Hc. apply C_val. exact Hc.
     + (* prefix *)
       destruct (ref_rank d) as [p|] eqn:Ep; [|discriminate]. injection Es as <- <-.
